@@ -27,8 +27,11 @@ type Mut struct {
 // extractors with zip fixtures).
 var mutOps = []string{
 	"trunc", "delline", "dupline", "swapline", "deltok", "duptok", "swaptok", "scalar", "splice",
-	"flip", "setbyte", "insert", "crlf", "bom", "dropnl", "nest", "repeat", "delrange", "strprefix", "strsuffix", "strempty",
+	"flip", "setbyte", "insert", "crlf", "crcrlf", "eol", "bom", "dropnl", "nest", "repeat", "delrange", "strprefix", "strsuffix", "strempty",
 }
+
+// lineEnds replace the terminator of one line (op "eol").
+var lineEnds = []string{"\r\n", "\r", "\r\r\n", "\n\n", "\n\r\n", "\n\r\r\n", "", " \n", "\t\r\n", "\x00\n", "\n \n"}
 
 // hostileAffixes are put at the start / end of the content of a quoted string or bare value.
 var hostileAffixes = []string{"npm:", "file:", "git+", "@", "../", "-r ", "workspace:", "link:", "https://", "github:", "/", ":", "v", "=", "#", "\\", " ", "a@", "@a/", "+", "-", ".", "!", "~", "^", "*", "%", "[", "{", "<", "&"}
@@ -289,6 +292,21 @@ func applyMut(b []byte, m Mut) []byte {
 		return replaceSpan(b, [2]int{at, at}, []byte(m.S))
 	case "crlf":
 		return bytes.ReplaceAll(bytes.ReplaceAll(b, []byte("\r\n"), []byte("\n")), []byte("\n"), []byte("\r\n"))
+	case "crcrlf":
+		// a second LF -> CRLF conversion on top of whatever the document has (CRLF becomes CR CR LF)
+		return bytes.ReplaceAll(b, []byte("\n"), []byte("\r\n"))
+	case "eol":
+		// the terminator of line A becomes lineEnds[B]
+		ls := lineSpans(b)
+		if len(ls) == 0 {
+			return b
+		}
+		x := ls[mod(m.A, len(ls))]
+		end := x[1]
+		for end > x[0] && (b[end-1] == '\n' || b[end-1] == '\r') {
+			end--
+		}
+		return replaceSpan(b, [2]int{end, x[1]}, []byte(lineEnds[mod(m.B, len(lineEnds))]))
 	case "bom":
 		return append([]byte("\xef\xbb\xbf"), b...)
 	case "dropnl":
